@@ -468,8 +468,15 @@ func streamCase(idx int64, r *rand.Rand) {
 		rt.Count("streams_opened_while_another_is_open", 1)
 		return okAll
 	}
-	ret := ic("srv", fs, sinfo, func(srv interface{}, ss golangGrpc.ServerStream) error {
+	// chained: the interceptor under observation is the second of two stream interceptors of this package on one stream
+	// (the first has limiters of its own, recorded apart): each gates every operation, the outer one included
+	chained := overlapAt < 0 && r.IntN(5) == 0
+	lg0 := &log{}
+	recv0, send0 := &recLimiter{lg: lg0, name: "recv0", grant: true}, &recLimiter{lg: lg0, name: "send0", grant: true}
+	ic0 := gclGrpc.StreamServerInterceptor(gclGrpc.WithStreamRecvLimiter(recv0), gclGrpc.WithStreamSendLimiter(send0))
+	handler := func(srv interface{}, ss golangGrpc.ServerStream) error {
 		for i := 0; i < nops && !bad; i++ {
+			lg0.ev = nil
 			if i == overlapAt && !secondStream() {
 				bad = true
 				return nil
@@ -559,6 +566,16 @@ func streamCase(idx int64, r *rand.Rand) {
 				bad = true
 				return nil
 			}
+			if chained && granted {
+				// the outer interceptor gated the very same operation on its own limiter, once
+				nA, _ := count(lg0.ev, "acquire:"+name+"0")
+				nT, _ := count(lg0.ev, "acquire:")
+				nC, _ := count(lg0.ev, "complete:"+name+"0")
+				if nA != 1 || nT != 1 || nC != 1 {
+					fail("outer-interceptor-of-a-chain-did-not-gate-the-operation-once", rt.J{"outer_events": lg0.ev})
+					return nil
+				}
+			}
 			if granted {
 				if got != opErr {
 					fail("result-not-returned-unchanged", rt.J{"got": fmt.Sprint(got)})
@@ -590,7 +607,14 @@ func streamCase(idx int64, r *rand.Rand) {
 			}
 		}
 		return handlerRet
-	})
+	}
+	var ret error
+	if chained {
+		rt.Count("streams_behind_another_stream_interceptor", 1)
+		ret = ic0("srv", fs, sinfo, func(srv interface{}, ss0 golangGrpc.ServerStream) error { return ic("srv", ss0, sinfo, handler) })
+	} else {
+		ret = ic("srv", fs, sinfo, handler)
+	}
 	if !bad && ret != handlerRet {
 		rt.Violation("C14/stream/handler-result-not-returned-unchanged", idx, rt.J{"got": fmt.Sprint(ret)})
 		return
